@@ -263,6 +263,23 @@ def run_case(ck, desc):
         _, _, inner = CAPTURED[-1]
         if not np.array_equal(got, inner):
             ck.violation("from_table-uses-threephase-pseudopressure", {}, desc)
+    # the documented work-flow also rescales the table's multiphase pseudopressure with `rescale_pseudopressure`
+    # ("1 at p_i and 0 at p_frac") for a frac-face pressure that is NOT the first row
+    if len(P) >= 6 and np.all(np.isfinite(got)) and got[ki] != got[1]:
+        p_fr_ = float(0.5 * (P[1] + P[2])) if ki > 2 else float(P[1])
+        tb_ = pd.DataFrame({"pressure": P, "pseudopressure": got})
+        try:
+            with warnings.catch_warnings(), np.errstate(all="ignore"):
+                warnings.simplefilter("ignore")
+                rs_ = fp.rescale_pseudopressure(tb_, p_fr_, p_i)
+            r_pp = np.asarray(rs_["pseudopressure"], dtype=float)
+            at_i_, at_f_ = float(np.interp(p_i, P, r_pp)), float(np.interp(p_fr_, P, r_pp))
+            tol_ = 1e-12 + 16 * np.finfo(float).eps * float(np.max(np.abs(got))) / max(abs(float(np.interp(p_i, P, got)) - float(np.interp(p_fr_, P, got))), 1e-300)
+            ck.count("multiphase_pseudopressures_rescaled")
+            if not ck.margin("rescaled multiphase pseudopressure: 1 at p_i, 0 at p_frac", max(abs(at_i_ - 1), abs(at_f_)), tol_):
+                ck.violation("rescaled-pseudopressure-one-at-initial-zero-at-frac-face", {"at_p_i": at_i_, "at_p_frac": at_f_, "p_frac": p_fr_, "p_i": p_i}, desc)
+        except Exception as e:  # noqa: BLE001
+            ck.count(f"rescale_of_multiphase_pseudopressure_raised.{type(e).__name__}")
     So = cols["So"]
     kr_own = {k: (lambda s, k=k: np.interp(s, np.asarray(df_kr_sorted["So"]), np.asarray(df_kr_sorted[k]))) for k in ("kro", "krg", "krw")}
     pvt_own = {k: (lambda x, k=k: np.interp(x, P, cols[k])) for k in ("Bo", "Bg", "Bw", "Rs", "Rv", "mu_o", "mu_g", "mu_w")}
